@@ -487,6 +487,20 @@ func (m *Monitors) onInvoke(inv Invocation) {
 	}
 	switch inv.Kind {
 	case "step", "callback", "timeout", "timer":
+		// C16: whatever object a function is handed, it is one that was persisted for this run - never another function's
+		// in-memory modifications (which exist only if that function's write happened)
+		if rr, ok := w.byID[inv.Persisted.RunID]; ok && inv.Depth == 1 && !inv.Nested {
+			seen := false
+			for i := range rr.versions {
+				if ObjToken(rr.versions[i].Object) == inv.SeenObj {
+					seen = true
+				}
+			}
+			if !seen {
+				m.violate("C16", "next-sees-persisted", "function-saw-unpersisted-object:"+inv.Kind,
+					fmt.Sprintf("%s function of status %d was handed run r%d with object o%d, which no write of that run ever stored (persisted: o%d)", inv.Kind, inv.Status, inv.Run, inv.SeenObj, ObjToken(inv.Persisted.Object)))
+			}
+		}
 		if isStopped(prs) {
 			m.violate("C08", "no-invocation-while-stopped", inv.Kind+"-invoked-on-stopped-run in "+m.pathName(),
 				fmt.Sprintf("%s function of status %d invoked for run r%d whose persisted run state is %d (%s)", inv.Kind, inv.Status, inv.Run, prs, m.pathName()))
